@@ -142,6 +142,23 @@ impl Prop for C17 {
         for s in ["1e40", "1e-40", "123456789012345678901234567890123456789/7", "-98765432109876543210987654321/340282366920938463463374607431768211456", "0/1"] {
             sink(Case::new("rational-big", s));
         }
+        // machine-word boundaries (2^k - 1, 2^k, 2^k + 1 for the usual widths), as numerator and as
+        // denominator, both signs: a compact integer fast path in the encoding loses exactly these
+        for k in [7u32, 8, 15, 16, 31, 32, 53, 63, 64, 65, 127, 128] {
+            let b = num::BigInt::from(1) << k;
+            for d in [-1i32, 0, 1] {
+                let v = &b + num::BigInt::from(d);
+                for (n, dn) in [(format!("{v}"), "1".to_string()), (format!("-{v}"), "1".to_string()), (format!("{v}"), "3".to_string()), ("1".to_string(), format!("{v}")), ("-3".to_string(), format!("{v}"))] {
+                    if dn == "3" && (&v % num::BigInt::from(3)) == num::BigInt::from(0) {
+                        continue;
+                    }
+                    if n == "-3" && (&v % num::BigInt::from(3)) == num::BigInt::from(0) {
+                        continue;
+                    }
+                    sink(Case::new("rational-big", format!("{n}/{dn}")));
+                }
+            }
+        }
         for (i, _) in refdb::constants().iter().enumerate() {
             sink(Case::new("constant", format!("{i}")));
         }
